@@ -79,8 +79,8 @@ func run(seed int64, n int, dir string, _ []string) {
 			o.Count("store:" + store)
 			o.Count(fmt.Sprintf("rows~%d", band(rows)))
 			o.NonTrivial(fmt.Sprintf("%s:%s:%s:%d:cpu%d:pos%d:%s", st.Kind, res, store, band(rows), r.CPU, i/5, countBand(out.Counts)))
-			if g.Intn(12) == 0 {
-				r.Commit()
+			if g.Intn(10) == 0 {
+				r.CommitOrRollback()
 			}
 		}
 		r.Commit()
